@@ -137,6 +137,13 @@ func (s *session) cast(v Value, to Type, mode castMode) (Value, error) {
 			return j, nil
 		}
 		return nil, unsupported("conversion of %s to json (json text is not preserved)", typeNameOf(v))
+	case "jsonpath":
+		if jp, ok := v.(jsonPathEq); ok {
+			return jp, nil
+		}
+		if fromText {
+			return parseJSONPath(str)
+		}
 	case "bytea":
 		if b, ok := v.([]byte); ok {
 			return b, nil
@@ -208,4 +215,62 @@ func (s *session) castUserType(v Value, to Type, mode castMode) (Value, error) {
 		}
 	}
 	return out, nil
+}
+
+// jsonPathEq is the one jsonpath form the interpreter understands: $[index] == "str" (lax mode).
+type jsonPathEq struct {
+	index int
+	str   string
+}
+
+// parseJSONPath accepts exactly `$[<int>] == "<string>"`; every other jsonpath is outside the subset.
+func parseJSONPath(text string) (Value, error) {
+	fail := func() (Value, error) { return nil, unsupported("jsonpath other than $[N] == \"string\": %s", text) }
+	t := strings.TrimSpace(text)
+	if !strings.HasPrefix(t, "$[") {
+		return fail()
+	}
+	t = t[2:]
+	end := strings.IndexByte(t, ']')
+	if end <= 0 {
+		return fail()
+	}
+	index := 0
+	for _, c := range t[:end] {
+		if c < '0' || c > '9' || index > 1<<20 {
+			return fail()
+		}
+		index = index*10 + int(c-'0')
+	}
+	t = strings.TrimSpace(t[end+1:])
+	if !strings.HasPrefix(t, "==") {
+		return fail()
+	}
+	t = strings.TrimSpace(t[2:])
+	var str string
+	if len(t) < 2 || t[0] != '"' || json.Unmarshal([]byte(t), &str) != nil {
+		return fail()
+	}
+	return jsonPathEq{index: index, str: str}, nil
+}
+
+// jsonPathMatch implements jsonb @@ jsonpath for jsonPathEq in lax mode: a missing element makes the predicate
+// false, JSON null never equals a string, a number or boolean compared with a string is "unknown" (SQL NULL).
+func jsonPathMatch(doc any, jp jsonPathEq) (Value, error) {
+	arr, isArr := doc.([]any)
+	if !isArr {
+		arr = []any{doc} // lax mode wraps a non-array before applying an array accessor
+	}
+	if jp.index >= len(arr) {
+		return false, nil
+	}
+	switch elem := arr[jp.index].(type) {
+	case string:
+		return elem == jp.str, nil
+	case nil:
+		return false, nil
+	case bool, json.Number:
+		return nil, nil
+	}
+	return nil, unsupported("jsonpath comparison against a nested array or object")
 }
